@@ -251,11 +251,8 @@ func (a Bytes) M__add__(other Object) (Object, error) {
 }
 
 func (a Bytes) M__iadd__(other Object) (Object, error) {
-	if b, ok := convertToBytes(other); ok {
-		a = append(a, b...)
-		return a, nil
-	}
-	return NotImplemented, nil
+	// bytes are immutable: never extend the (possibly shared) backing array in place
+	return a.M__add__(other)
 }
 
 func (a Bytes) Replace(args Tuple) (Object, error) {
